@@ -14,6 +14,8 @@ gentie_step(check, ctx) — a pre-step for vlib.core.Check:
      exactly as for any other broken obligation. Only the theorems of the calling check's property are returned
      (TIES below); failures of other properties' kernels are listed in ctx["info"]["gentie_other_failures"].
 
+  gentie_step_all(check, ctx) is the same step for a check about ALL kernels (every failing theorem is its problem).
+
   ctx["info"]["gentie_kernels"]      Go functions translated AND tied by a theorem that checks
   ctx["info"]["gentie_unsupported"]  {goFunc: "unsupported: <construct> at file:line"} (kernels of the table outside the subset)
   ctx["info"]["gentie_not_translated_parts"]  {goFunc: [...]} abstract helpers / branches of tied kernels (NOT covered by the tie)
@@ -206,14 +208,20 @@ def run_gentie(ctx=None):
                               "lake_s": round(t3 - t2, 2)}
 
 
-def gentie_step(check, ctx, only_property=None):
+def gentie_step_all(check, ctx):
+    """Like gentie_step, for a check whose theorems quantify over ALL kernel models (C06, C14): every `gen_eq_*` that no longer
+    checks is returned as a problem of the calling check, whatever property the theorem is listed under in TIES."""
+    return gentie_step(check, ctx, all_ties=True)
+
+
+def gentie_step(check, ctx, only_property=None, all_ties=False):
     info = ctx["info"]
     t0 = time.time()
     rep, failed, out, timing = run_gentie(ctx)
     status = {k["func"]: k for k in rep["kernels"]}
     unsupported = {f: "%s: %s" % (k["status"], k.get("reason", "")) for f, k in status.items() if k["status"] != "ok"}
     pid = only_property or getattr(check, "pid", None)
-    mine = [t for t, (_, p) in TIES.items() if p == pid] or list(TIES)
+    mine = list(TIES) if all_ties else ([t for t, (_, p) in TIES.items() if p == pid] or list(TIES))
     known = {n for f in TIE_FILES for _, n in _theorem_lines(_tie_path(f))}
     missing = [t for t in TIES if t not in known]
     if missing:
@@ -275,7 +283,7 @@ def gentie_step(check, ctx, only_property=None):
     return problems
 
 
-if __name__ == "__main__":   # stand-alone: python3 -m vlib.gentie [property]
+if __name__ == "__main__":   # stand-alone: python3 -m vlib.gentie [property]   (no property: all ties)
     import sys
     import tempfile
 
